@@ -180,7 +180,8 @@ pub fn run(ctx: &mut Ctx) {
 
     // matching matrix
     if ctx.family_active("match") {
-        let mut codes: Vec<u16> = TYPED_CODES.iter().copied().filter(|c| *c != 41).collect();
+        // (41 included: a record holding OPT data in the answer section is a record like any other for the matching functions)
+        let mut codes: Vec<u16> = TYPED_CODES.to_vec();
         codes.extend_from_slice(&[10, 0, 19, 99, 251, 255, 256, 65535]);
         let mut qtypes: Vec<u16> = TYPED_CODES.to_vec();
         qtypes.extend_from_slice(&[10, 255, 253]);
@@ -200,6 +201,13 @@ pub fn run(ctx: &mut Ctx) {
                     RecSem { name: g.name(), rtype: *code, class: *g.r.pick(&CLASSES), flush: false, ttl: 5,
                         rd: Rd::Opaque(if variant == 1 { vec![] } else { let mut b = g.blob(9); b.push(1); b }) }
                 };
+                let mut rec = rec;
+                if *code == 41 {
+                    // the CLASS slot of OPT data carries a payload size; the library files such a record under class IN
+                    rec.class = 1;
+                    rec.flush = false;
+                    rec.name = vec![];
+                }
                 let mut p = PktM { id: idx as u16, flags: 0x8000, ..Default::default() };
                 p.secs[0].push(rec.clone());
                 let bytes = encode(&p.to_wire(0), Plan::None).bytes;
